@@ -80,7 +80,10 @@ def execute(
     Raises:
         RuntimeError: on invalid operation.
     """
-    instrumentation = instrumentation or Instrumentation()
+    # `is None`: an instrumentation object may be falsy (e.g. a tracer that is
+    # an empty collection when the request starts).
+    if instrumentation is None:
+        instrumentation = Instrumentation()
     runtime = runtime or BlockingRuntime()
 
     operation, root_type = get_operation_with_type(
